@@ -144,6 +144,8 @@ def heavy(obj):
         q("in_hull_norm", lambda: obj.in_hull(PROBES.copy(), normalized=True))
         q("sample", lambda: obj.sample_in_hull(5, seed=3))
         q("gamut", lambda: obj.compute_gamut(seed=1))
+        q("dist_scaling", lambda: obj.gamut_dist_scaling(PROBES.copy()))
+        q("l1_scaling", lambda: obj.gamut_l1_scaling(PROBES.copy()))
         if obj.underdetermined:
             q("range", lambda: obj.range_of_solutions(PROBES.copy(), error="ignore"))
     return out
